@@ -9,7 +9,7 @@ from vlib import *
 
 HOOK_FLAGS = ['-O1', '-DNDEBUG', '-DUNODB_DETAIL_WITH_STATS', '-DUNODB_SPINLOCK_LOOP_VALUE=1', '-DUNODB_DETAIL_VERIF_HOOKS']
 N = 4
-PROPS = {'C05': ['Properties/Properties_C05.v'], 'C06': ['Properties/Properties_C06.v', 'Properties/Properties_C06b.v']}
+PROPS = {'C05': ['Properties/Properties_C05.v', 'Properties/Properties_C05b.v'], 'C06': ['Properties/Properties_C06.v', 'Properties/Properties_C06b.v']}
 
 
 def enabled_ops(reg, n):
@@ -257,7 +257,8 @@ def check(pid, tier, replay=None):
     ]
     have_props = all(os.path.exists(os.path.join(COQ, f)) for f in PROPS[pid])
     if have_props:
-        proof_stage(res, [], PROPS[pid], pid)
+        # the state-word functions of qsbr.hpp are regenerated and bridged to the model's (epoch, T, P) arithmetic
+        proof_stage(res, ['qsbr'] if pid == 'C05' else [], PROPS[pid], pid)
     else:
         res.proof_ok, res.broken, res.proof_log = True, [], ''
     res.coverage['trusted_base'] = TRUSTED_COMMON + [
